@@ -1,5 +1,5 @@
 (* C07 — Hybrid Rush-Larsen applies RL to exactly the stiff states and Euler to the rest. *)
-From GX Require Import Base Expr Topo Ode Target Sem Codegen Load Valid Run Schemes Carriers Examples.
+From GX Require Import Base Expr Topo Ode Target Sem Codegen Load Valid Run Schemes Carriers Examples MirrorValid MirrorRL.
 From Coq Require Import QArith.
 Close Scope Q_scope.
 Open Scope string_scope.
@@ -54,3 +54,32 @@ Theorem C07_only_states_matter :
     valid_scheme o ss inp modes stiff delta f = valid_scheme o ss inp modes stiff' delta f.
 Proof. intros T o ss inp. exact (hybrid_depends_on_states_only o ss inp). Qed.
 Print Assumptions C07_only_states_matter.
+
+(* the mirror of the Rush-Larsen generator is a verified compiler: for every well-formed model - names unique and
+   not reserved also after adding the helpers d<state>_dt_linearized -, every set of stiff states and every assignment
+   of modes to the states (the per-state decision Euler / guarded / plain that sympy makes and the check reads off the
+   code), the generated function passes the validator and returns in every slot the value the property prescribes
+   for that slot's mode, in any carrier with the field laws.  The implementation's generalized and hybrid functions
+   are compared with this function statement by statement. *)
+Theorem C07_mirror_rush_larsen_is_correct_for_every_well_formed_model :
+  forall (T : Type) (N : NumOps T) (o : ode) ru modes stiff delta name order ss f (inp : inputs T),
+    FieldLaws N ->
+    sorted_states o = Some ss -> wf_gen o ss true = true ->
+    NoDup (all_names (extend_lin o)) ->
+    (forall x, In x (all_names (extend_lin o)) -> resv true x = false) ->
+    (forall x, In x (missing_names (extend_lin o)) -> resv true x = false) ->
+    missing_names (extend_lin o) = missing_names o ->
+    gen_rl o ru modes stiff delta name order = Some f ->
+    sizes_ok o ss inp ->
+    valid_scheme o ss inp modes stiff delta f = true
+    /\ exists out,
+        exec N f true inp = Some out
+        /\ List.length out = List.length ss
+        /\ forall i s, nth_error ss i = Some s ->
+             exists sv fv gv,
+               nth_error (in_states inp) i = Some sv
+               /\ Sem N (extend_lin o) ss inp true (deriv_name_of s) fv
+               /\ (slot_mode modes stiff i s = MEuler \/ Sem N (extend_lin o) ss inp true (lin_name (deriv_name_of s)) gv)
+               /\ nth_error out i = Some (slot_value N (slot_mode modes stiff i s) delta sv fv gv (in_dt inp)).
+Proof. exact @mirror_rl_correct. Qed.
+Print Assumptions C07_mirror_rush_larsen_is_correct_for_every_well_formed_model.
